@@ -105,7 +105,15 @@ def explore_and_prove(fn, assumptions, goal_of, max_paths=5000, timeout_ms=20000
                 if len(out.failed) >= max_fail:
                     break
             else:
-                out.inconclusive.append("solver unknown on path %s" % (p.decisions,))
+                # nlsat gave up (its weak side is FINDING a real solution of a polynomial system): look for a witness at a few generic
+                # rational points - each is checked by the solver on the fully instantiated formula, so a hit is a genuine model
+                m = point_witness(list(ctx.assumptions) + list(p.pc) + [z3.Not(g)]) if prover is None else None
+                if m is not None:
+                    out.failed.append((p, m, g))
+                    if len(out.failed) >= max_fail:
+                        break
+                else:
+                    out.inconclusive.append("solver unknown on path %s" % (p.decisions,))
             if deadline_s is not None and time.time() - t0 > deadline_s:
                 out.inconclusive.append("exploration deadline %ss reached after %d paths" % (deadline_s, ctx.stats["paths"]))
                 break
@@ -113,6 +121,34 @@ def explore_and_prove(fn, assumptions, goal_of, max_paths=5000, timeout_ms=20000
         out.inconclusive.append(str(e))
     out.merge_stats(ctx)
     return out
+
+
+def point_witness(formulas, tries=12):
+    """a model of the conjunction found by instantiating every free variable at generic points (None if none of the points satisfies it)"""
+    from .zsym import free_vars
+    import fractions
+
+    acc = {}
+    for f in formulas:
+        free_vars(f, acc)
+    vs = [v for _, v in sorted(acc.items()) if z3.is_real(v) or z3.is_int(v)]
+    if not vs or len(vs) > 400:
+        return None
+    for k in range(tries):
+        s = z3.Solver()
+        s.set("timeout", 5000)
+        for i, v in enumerate(vs):
+            if z3.is_int(v):
+                val = z3.IntVal(1 + (i + k) % (2 + k))
+            else:
+                fr = [fractions.Fraction(2 * i + 3 + k, 2 + (i + k) % 3), fractions.Fraction(i + 1 + k, 7), fractions.Fraction(3 + i, 1 + k),
+                      fractions.Fraction(1, 2 + i + k)][k % 4]
+                val = z3.Q(fr.numerator, fr.denominator)
+            s.add(v == val)
+        s.add(*formulas)
+        if str(s.check()) == "sat":
+            return s.model()
+    return None
 
 
 def soft_path(p):
